@@ -1,6 +1,6 @@
 CONSTANTS
   Layouts = {"TD1", "TD2", "TD3"}
-  Nums = {"A", "B", "C", "D"}
+  Nums = {"A", "B", "C", "D", "E"}
   Dobs = {"A", "B"}
   Exps = {"A", "B"}
   Opts = {"A", "N"}
